@@ -95,6 +95,7 @@ type c13Probe struct {
 	inactive    int32
 	gate        func(where string)
 	onInactive  func()
+	panicInact  bool
 }
 
 func (p *c13Probe) HandleActive(ctx netty.ActiveContext) {
@@ -122,6 +123,9 @@ func (p *c13Probe) HandleInactive(ctx netty.InactiveContext, ex netty.Exception)
 	if p.onInactive != nil {
 		p.onInactive()
 	}
+	if p.panicInact {
+		panic(errors.New("inactive handler failed"))
+	}
 	ctx.HandleInactive(ex)
 }
 
@@ -146,12 +150,14 @@ type c13Cfg struct {
 	acceptErr  bool   // listener 0's accept loop hits an accept error unrelated to closing, before Shutdown
 	failWrite  bool   // a client channel suffers a write-side transport failure before Shutdown (on the transport wrapper)
 	wrap       *[2]int
-	relisten   bool // listener 0's address was listened on and closed before; the stale handle is closed again
+	relisten   bool   // listener 0's address was listened on and closed before; the stale handle is closed again
+	parent     string // "" = no WithContext; "alive" = WithContext(parent), parent outlives Shutdown; "ended" = the parent context ends right before Shutdown is called
+	panicInact bool   // the application's inactive handler fails (panics) on every channel
 }
 
 func (g c13Cfg) String() string {
-	return fmt.Sprintf("L=%d preInject=%d preConnect=%d concInject=%d concConnect=%d closeSome=%v lclose=%d gate=%s until=%s lateAsync=%v relisten=%v acceptErr=%v failWrite=%v wrap=%v",
-		g.listeners, g.preInject, g.preConnect, g.concInject, g.concConn, g.closeSome, g.lclose, g.gate, g.until, g.lateAsync, g.relisten, g.acceptErr, g.failWrite, g.wrap != nil)
+	return fmt.Sprintf("L=%d preInject=%d preConnect=%d concInject=%d concConnect=%d closeSome=%v lclose=%d gate=%s until=%s lateAsync=%v relisten=%v acceptErr=%v failWrite=%v wrap=%v parentContext=%q inactiveHandlerPanics=%v",
+		g.listeners, g.preInject, g.preConnect, g.concInject, g.concConn, g.closeSome, g.lclose, g.gate, g.until, g.lateAsync, g.relisten, g.acceptErr, g.failWrite, g.wrap != nil, g.parent, g.panicInact)
 }
 
 var c13Gates = []string{"none", "loop-start", "in-listen", "before-accept", "child-init", "active", "client-init", "activate-during-closeall", "handshake-read-in-active", "panic-in-active", "late-activation-handshake-read"}
@@ -187,6 +193,8 @@ func runC13(c *core.Ctx) {
 			relisten:   rng.Intn(5) == 0,
 			acceptErr:  rng.Intn(6) == 0,
 			failWrite:  rng.Intn(4) == 0,
+			parent:     []string{"", "", "alive", "ended"}[rng.Intn(4)],
+			panicInact: rng.Intn(5) == 0,
 		}
 		if rng.Intn(4) == 0 {
 			cfg.lclose = rng.Intn(cfg.listeners)
@@ -244,7 +252,7 @@ func c13Trial(c *core.Ctx, id string, cfg c13Cfg) {
 	var probes []*c13Probe
 	mkInit := func(kind string) netty.ChannelInitializer {
 		return func(ch netty.Channel) {
-			p := &c13Probe{id: ch.ID()}
+			p := &c13Probe{id: ch.ID(), panicInact: cfg.panicInact}
 			if cfg.gate == "active" {
 				p.gate = func(string) { wait() }
 			}
@@ -300,8 +308,16 @@ func c13Trial(c *core.Ctx, id string, cfg c13Cfg) {
 			}
 		}
 	}
-	bs := netty.NewBootstrap(netty.WithTransport(f), netty.WithExecutor(ex),
-		netty.WithChildInitializer(mkInit("child")), netty.WithClientInitializer(mkInit("client")))
+	bopts := []netty.Option{netty.WithTransport(f), netty.WithExecutor(ex),
+		netty.WithChildInitializer(mkInit("child")), netty.WithClientInitializer(mkInit("client"))}
+	parentCancel := func() {}
+	if cfg.parent != "" {
+		var pctx context.Context
+		pctx, parentCancel = context.WithCancel(context.Background())
+		bopts = append(bopts, netty.WithContext(pctx))
+	}
+	defer parentCancel()
+	bs := netty.NewBootstrap(bopts...)
 
 	type lst struct {
 		l        netty.Listener
@@ -464,8 +480,20 @@ func c13Trial(c *core.Ctx, id string, cfg c13Cfg) {
 		// the connection must have been accepted (and sit in its initializer) before Shutdown starts
 		s.Await("inChildInit", 1, 3*time.Second)
 	}
+	if cfg.parent == "ended" {
+		// the application's own context ends (deadline, signal) and its clean-up then calls Shutdown
+		parentCancel()
+		c.Count("shutdown_after_parent_context_ended", 1)
+	}
 	s.Mark("shutdownCalled")
-	bs.Shutdown()
+	func() {
+		defer func() {
+			if r := recover(); r != nil {
+				c.Count("shutdown_panicked", 1) // judged by what it left behind
+			}
+		}()
+		bs.Shutdown()
+	}()
 	s.Mark("shutdownReturned")
 	s.ReleaseAll()
 	bg.Wait()
